@@ -58,7 +58,10 @@ def cases(tier, seed):
         x = float(loguniform(rng, 1e-2, 120))
         out.append({"id": "field-%d" % i, "kind": "field", "m": _gen_m(rng, i), "x": x, "nmed": float(rng.uniform(1.0, 1.6)),
                     "wl": float(rng.uniform(0.4, 0.8)), "opts": scat.MIE_OPTS[i % 4], "pol_angle": float(rng.uniform(0, 2 * math.pi)),
-                    "pol_norm": float(loguniform(rng, 0.3, 3)), "near": bool(i % 3 == 0), "seed": [seed, "field", i], "cost": 1 + x / 50})
+                    "pol_norm": float(loguniform(rng, 0.3, 3)), "near": bool(i % 3 == 0), "seed": [seed, "field", i], "cost": 1 + x / 50,
+                    # every fifth case lines its points up: along rays from the particle (same direction, doubling distances) and along
+                    # the optical axis through it -- the same polar angle at different distances, one after the other in one call
+                    "rays": bool(i % 5 == 2)})
     # detector points millimetres away (k r beyond 2e4), with the full and with the asymptotic radial dependence
     for i in range(12 if tier == "quick" else 300):
         out.append({"id": "field-far-%d" % i, "kind": "field", "m": _gen_m(rng, i), "x": float(loguniform(rng, 0.1, 20)), "nmed": float(rng.uniform(1.0, 1.6)),
@@ -168,6 +171,16 @@ def _run_field(case):
     else:
         dist = r * 1.05 + loguniform(rng, 0.5, 500, n) / k * 10
     u = rng.normal(size=(n, 3)); u /= np.linalg.norm(u, axis=1, keepdims=True)
+    if case.get("rays") and not case.get("veryfar"):
+        # four rays of four points (distance doubling, so the direction is bit-identical) and eight points on the axis through the
+        # particle, in front of and behind it; the particle sits at the origin for the rays to stay exact
+        if rng.random() < 0.5:
+            c = np.zeros(3)
+        d0 = dist[:4]
+        for j in range(4):
+            u[4 * j:4 * j + 4] = u[4 * j]
+            dist[4 * j:4 * j + 4] = d0[j] * np.array([1.0, 2.0, 4.0, 8.0])[rng.permutation(4) if j % 2 else np.arange(4)]
+        u[16:] = np.array([0.0, 0.0, 1.0]) * np.where(np.arange(8) % 3 == 2, -1.0, 1.0)[:, None]
     P = c + u * dist[:, None]          # detector points anywhere around the particle (also behind it)
     pa, pn = case["pol_angle"], case["pol_norm"]
     pol = (pn * math.cos(pa), pn * math.sin(pa))
